@@ -157,7 +157,7 @@ PROPS["C20"] = {
     "facts": PARSE_FACTS,
 }
 
-HOOK_COMMITS = ["3043224", "4e02347"]
+HOOK_COMMITS = ["3043224", "4e02347", "ab15573"]
 NOT_YET = {}
 
 # group modules p_<group>.py register their properties: def register(PROPS): PROPS["Cxx"] = {...}
